@@ -140,10 +140,11 @@ async fn c20_reconnect_retry_not_ready() {
     assert!(v.load(Ordering::SeqCst) >= 1, "finding no longer reproduces: the retry went to an instance observed ready");
 }
 
-/// C12: all-attempts-failed is reported as soon as ONE error arrives after the last hedge was started, although other
-/// started attempts are still running and would succeed.
+/// C12 (FIXED in /repo by "fix: hedge reports all-attempts-failed only when every started attempt has failed"): before the fix
+/// all-attempts-failed was reported as soon as ONE error arrived after the last hedge was started, although other started
+/// attempts were still running and would succeed. The test now asserts the repaired behaviour.
 #[tokio::test]
-async fn c12_all_failed_reported_while_attempts_still_running() {
+async fn c12_all_failed_only_after_every_attempt_failed_fixed() {
     use tower_resilience_hedge::HedgeLayer;
     let n = Arc::new(AtomicUsize::new(0));
     let n2 = Arc::clone(&n);
@@ -161,6 +162,6 @@ async fn c12_all_failed_reported_while_attempts_still_running() {
     let layer = HedgeLayer::builder().max_hedged_attempts(3).delay(Duration::from_millis(10)).build();
     let mut h = layer.layer(svc);
     let out = h.ready().await.unwrap().call(()).await;
-    // property: fails only when every started attempt has failed -> Ok("primary") at 200 ms. Real code (before the fix): AllAttemptsFailed at ~70 ms.
-    assert!(out.is_err(), "finding no longer reproduces: {out:?}");
+    // property: fails only when every started attempt has failed -> Ok("primary") at 200 ms. Before the fix: AllAttemptsFailed at ~70 ms.
+    assert_eq!(out.ok(), Some("primary"), "the C12 defect is back");
 }
